@@ -31,11 +31,34 @@ pub fn positions(rest: &[String]) -> i32 {
         let res = std::panic::catch_unwind(|| {
             let g = proj::game_from_fields(r);
             let mvs: Vec<i64> = g.moves().iter().map(|m| proj::pack_move(*m)).collect();
-            (g.to_fen(), mvs, g.is_king_in_check(), g.is_stalemate_by_insufficient_material())
+            // the check verdict reached by playing each move (and the verdict of the position itself once the move is taken back)
+            let chk0 = g.is_king_in_check();
+            let mut g2 = g.clone();
+            let mut gives: Vec<i64> = Vec::new();
+            let mut restored = true;
+            for m in g.moves().iter() {
+                g2.make_move(*m);
+                if g2.is_king_in_check() {
+                    gives.push(proj::pack_move(*m));
+                }
+                g2.undo_move();
+                restored &= g2.is_king_in_check() == chk0;
+            }
+            (g.to_fen(), mvs, chk0, g.is_stalemate_by_insufficient_material(), gives, restored)
         });
         match res {
             Err(_) => mism.push(json!({"fam": fam, "what": "panic", "pos": r})),
-            Ok((fen, mvs, chk, insuf)) => {
+            Ok((fen, mvs, chk, insuf, gives, restored)) => {
+                if let Some(gc) = r.get("gc").and_then(|x| x.as_array()) {
+                    let want_gc: HashSet<i64> = gc.iter().map(|x| x.as_i64().unwrap()).collect();
+                    let got_gc: HashSet<i64> = gives.iter().copied().collect();
+                    if want_gc != got_gc || !restored {
+                        let mut a: Vec<i64> = want_gc.symmetric_difference(&got_gc).copied().collect();
+                        a.sort();
+                        mism.push(json!({"fam": fam, "what": "check-verdict-after-playing-a-move", "fen": fen, "moves": a,
+                            "verdict_restored_after_take_back": restored}));
+                    }
+                }
                 if let Some(ipv) = r.get("ipv").and_then(|x| x.as_str()) {
                     if (ipv == "T" && !insuf) || (ipv == "F" && insuf) {
                         mism.push(json!({"fam": fam, "what": "material", "fen": fen, "engine": insuf, "spec": ipv}));
